@@ -41,6 +41,7 @@ def tasks(tier, seed):
         ts.append({"part": "recipes", "status": si, "name": "recipes/%d" % STATUSES[si]})
     ts.append({"part": "redirects", "name": "redirects"})
     ts.append({"part": "faults", "name": "faults"})
+    ts.append({"part": "interim", "name": "interim"})
     return ts
 
 
@@ -218,6 +219,34 @@ def recipe_case(status, upgrade, connection, accept, offered, selected, prior=No
     return check_outcome(net, ws, out, expect, label, {"part": "recipe", "why": why if not ok or expect is False else "valid"})
 
 
+def interim_case(istatus, ifields, ffields, offered):
+    """An interim (1xx) response in front of the final 101. Whether interim responses are skipped at all is not specified - but the client
+    is connected only if the FINAL response on its own is a valid upgrade: nothing an interim response carried may stand in for a field
+    the final response lacks. ifields / ffields: subsets of {'upgrade', 'connection', 'accept', 'protocol'}."""
+    def block(req, status, fields):
+        lines = ["HTTP/1.1 %d X" % status]
+        if "upgrade" in fields:
+            lines.append("Upgrade: websocket")
+        if "connection" in fields:
+            lines.append("Connection: Upgrade")
+        if "accept" in fields:
+            lines.append("Sec-WebSocket-Accept: " + HS.accept_for(req["key"]))
+        if "protocol" in fields:
+            lines.append("Sec-WebSocket-Protocol: a")
+        return ("\r\n".join(lines) + "\r\n\r\n").encode()
+
+    def respond(req, hop, sock):
+        return block(req, istatus, ifields) + block(req, 101, ffields)
+
+    opts = {"subprotocols": ["a", "b"]} if offered else {}
+    net, ws, out, hops = run_connect(respond, opts)
+    need = {"upgrade", "connection", "accept"} | ({"protocol"} if offered else set())
+    final_valid = need <= set(ffields)
+    expect = None if final_valid else False
+    label = "interim %d response carrying %r followed by a final 101 carrying %r (subprotocols offered: %s)" % (istatus, sorted(ifields), sorted(ffields), bool(offered))
+    return check_outcome(net, ws, out, expect, label, {"part": "interim", "missing_in_final": sorted(need - set(ffields))[:1]})
+
+
 def redirect_case(length, limit, ending, rstatus):
     """chain of `length` redirects then `ending`."""
     def respond(req, hop, sock):
@@ -314,6 +343,16 @@ def run_task(desc):
                 n += 1
                 rec(guarded(recipe_case, status, up, co, ac, of, se, "stale"), {"case": "recipe", "args": [status, up, co, ac, of, se, "stale"]})
         res["samples"].append({"status": status, "upgrade": UPGRADES[:3], "accept_variants": ACCEPTS})
+    elif desc["part"] == "interim":
+        F = ["upgrade", "connection", "accept", "protocol"]
+        subsets = [tuple(f for i, f in enumerate(F) if m >> i & 1) for m in range(16)]
+        for ist in (100, 102, 103, 199):
+            for ifields in subsets:
+                for ffields in subsets:
+                    for offered in (False, True):
+                        n += 1
+                        rec(guarded(interim_case, ist, ifields, ffields, offered), {"case": "interim", "args": [ist, list(ifields), list(ffields), offered]})
+        res["samples"].append({"interim_statuses": [100, 102, 103, 199], "field_subsets": 16})
     elif desc["part"] == "redirects":
         for length in range(0, 6):
             for limit in (0, 1, 2, None, 5):
@@ -338,6 +377,6 @@ def run_task(desc):
 
 
 def replay(rep):
-    fn = {"recipe": recipe_case, "redirect": redirect_case, "fault": fault_case}[rep["case"]]
+    fn = {"recipe": recipe_case, "redirect": redirect_case, "fault": fault_case, "interim": interim_case}[rep["case"]]
     f = fn(*rep["args"])
     return None if f is None else {"sig": f[0], "what": f[1]}
